@@ -64,12 +64,16 @@ const (
 	EClosed
 	EUnauthorized
 	EOther = 9
+	// EInjected: the error of a scripted one-shot read fault (see Fault).
+	EInjected = 99
 )
 
 func ErrClass(err error) int {
 	switch {
 	case err == nil:
 		return EOk
+	case errors.Is(err, ErrInjected):
+		return EInjected
 	case errors.Is(err, index.ErrDiscontinuous):
 		return EDiscontinuous
 	case errors.Is(err, domain.ErrWriteConflict):
@@ -96,6 +100,8 @@ type Env struct {
 	Cap   int64
 	Chans map[uint32]Chan
 	W     *cesium.Writer
+	// Fault is the one-shot read fault of the file system the database runs on.
+	Fault *Fault
 }
 
 func dataType(dt string) telem.DataType {
@@ -130,7 +136,8 @@ func (e *Env) open() error {
 }
 
 func NewEnv(s Setup) (*Env, error) {
-	e := &Env{Ctx: context.Background(), FS: xfs.NewMem(), Cap: s.Cap, Chans: map[uint32]Chan{}}
+	fault := &Fault{}
+	e := &Env{Ctx: context.Background(), FS: NewFaultFS(xfs.NewMem(), fault), Cap: s.Cap, Chans: map[uint32]Chan{}, Fault: fault}
 	if err := e.open(); err != nil {
 		return nil, err
 	}
